@@ -259,3 +259,39 @@ void h_CodeALIGN(void) {
     }
     VREACH("end");
 }
+
+/* ---- C13: PUBLIC / GLOBAL / FORWARD argument lists (CodePPSyms) ---------------------------------------------
+ * each argument is "name" (destination: global, i.e. the empty section text) or "name:section"; the destination of one
+ * argument must not leak into the next.  String helpers are ASCII stand-ins, IdentifySection logs the section text. */
+#ifdef VERIF_PPSYMS
+#include "strcomp.h"
+char* QuotPosQualify(char const* s, char Zeichen, tQualifyQuoteFnc QualifyQuoteFnc) { int i; (void)QualifyQuoteFnc; for (i = 0; i < 8 && s[i]; i++) if (s[i] == Zeichen) return (char*)s + i; return NULL; }
+Boolean ExpandStrSymbol(char* pDest, size_t DestSize, const struct sStrComp* pSrc) { size_t i; for (i = 0; i + 1 < DestSize && i < 8 && pSrc->str.p_str[i]; i++) pDest[i] = pSrc->str.p_str[i]; pDest[i] = 0; return True; }
+void NLS_UpString(char* s) { (void)s; }
+char* GetErrorPos(void) { return NULL; }
+char* as_strdup(char const* s) { char* d = malloc(8); int i; VASSUME(d != NULL); for (i = 0; i < 7 && s[i]; i++) d[i] = s[i]; d[i] = 0; return d; }
+static char g_sec_first[4]; static int g_sec_len[4]; static int g_sec_calls;
+Boolean IdentifySection(const struct sStrComp* pName, LongInt* Erg) {
+    int n = 0; while (n < 8 && pName->str.p_str[n]) n++;
+    if (g_sec_calls >= 0 && g_sec_calls < 4) { g_sec_first[g_sec_calls] = pName->str.p_str[0]; g_sec_len[g_sec_calls] = n; }
+    g_sec_calls++; *Erg = (n == 0) ? -1 : 7; return True;
+}
+void h_CodePPSyms(void) {
+    static tStrComp a[4]; static char t1[8], t2[8], t3[8]; PForwardSymbol orig = NULL, alt1 = NULL, alt2 = NULL, r; int q1, q3, cnt = 0;
+    VND(q1, int); VND(q3, int);                                        /* is the first / third argument section-qualified? */
+    t1[0] = 'a'; t1[1] = (q1 & 1) ? ':' : 0; t1[2] = 'S'; t1[3] = 0;   /* "a:S" or "a" */
+    t2[0] = 'b'; t2[1] = 0;                                            /* "b"          */
+    t3[0] = 'c'; t3[1] = (q3 & 1) ? ':' : 0; t3[2] = 'T'; t3[3] = 0;   /* "c:T" or "c" */
+    a[1].str.p_str = t1; a[1].str.capacity = 8; a[2].str.p_str = t2; a[2].str.capacity = 8; a[3].str.p_str = t3; a[3].str.capacity = 8;
+    ArgStr = a; ArgCnt = 3; CaseSensitive = True; g_sec_calls = 0;
+    VND(g_err_cnt, ulong); VASSUME(g_err_cnt < 1000000);
+    CodePPSyms(&orig, &alt1, &alt2);
+    for (r = orig; r && cnt < 5; r = r->Next) cnt++;
+    VPOST(cnt == 3 && g_sec_calls == 3, "C13: every name of a PUBLIC/GLOBAL/FORWARD list is entered once");
+    VPOST((q1 & 1) ? (g_sec_len[0] == 1 && g_sec_first[0] == 'S') : g_sec_len[0] == 0, "C13: name:section is redirected to that section, a plain name to global");
+    VPOST(g_sec_len[1] == 0, "C13: an unqualified name after a qualified one is global (the qualifier of one argument does not leak into the next)");
+    VPOST((q3 & 1) ? (g_sec_len[2] == 1 && g_sec_first[2] == 'T') : g_sec_len[2] == 0, "C13: ... and a later qualified name gets its own section");
+    VPOST(orig && orig->Name[0] == 'c' && orig->DestSection == ((q3 & 1) ? 7 : -1), "C13: the list entry records the destination section of its own argument");
+    VREACH("end");
+}
+#endif
